@@ -8,14 +8,17 @@
 (***************************************************************************)
 EXTENDS Ownership, TLC, Json
 
-CONSTANTS Who, MaxSteps, EmitTests
-VARIABLES o, now, lastNom, steps, sid, par
-vars == <<o, now, lastNom, steps, sid, par>>
-View == <<o, now, lastNom, steps>>
+CONSTANTS Who, MaxSteps, EmitTests,
+          Interference   \* other operations of the same contract interleaved with the handover (they must leave it alone)
+VARIABLES o, now, lastNom, steps, sid, par,
+          intf   \* history: the interfering operation most recently run since the last handover step ("" = none); it
+                 \* is part of the VIEW so that what follows an interference is explored (and emitted) in its own right
+vars == <<o, now, lastNom, steps, sid, par, intf>>
+View == <<o, now, lastNom, steps, intf>>
 T0 == 1700000000
 
 Init == /\ o = [admin |-> "admin", pending |-> OwnNone, minTime |-> OwnNoTime]
-        /\ now = T0 /\ lastNom = OwnNoTime /\ steps = 0 /\ sid = 0 /\ par = 0
+        /\ now = T0 /\ lastNom = OwnNoTime /\ steps = 0 /\ sid = 0 /\ par = 0 /\ intf = ""
         /\ (EmitTests => /\ TLCSet(1, 0)
                           /\ PrintT("MODEL " \o ToJson([kind |-> "ownership", who |-> Who])))
 
@@ -32,31 +35,43 @@ Nominate(s, x) ==
       o1 == IF ok THEN OwnTransfer(o, x, now) ELSE o IN
   /\ o' = o1 /\ lastNom' = IF ok THEN now ELSE lastNom
   /\ Emit([m |-> "transfer_ownership", s |-> s, to |-> x, tvalid |-> TRUE], ok, o1)
+  /\ intf' = IF ok THEN "" ELSE intf
   /\ UNCHANGED now
 Revoke(s) ==
   LET ok == OwnRevokeWhy(o, s) = {}
       o1 == IF ok THEN OwnRevoke(o) ELSE o IN
   /\ o' = o1 /\ lastNom' = IF ok THEN OwnNoTime ELSE lastNom
   /\ Emit([m |-> "revoke_ownership_transfer", s |-> s], ok, o1)
+  /\ intf' = IF ok THEN "" ELSE intf
   /\ UNCHANGED now
 Accept(s) ==
   LET ok == OwnAcceptWhy(o, s, now) = {}
       o1 == IF ok THEN OwnAccept(o, s) ELSE o IN
   /\ o' = o1 /\ lastNom' = IF ok THEN OwnNoTime ELSE lastNom
   /\ Emit([m |-> "accept_ownership", s |-> s], ok, o1)
+  /\ intf' = IF ok THEN "" ELSE intf
   /\ UNCHANGED now
 Tick ==
   /\ lastNom # OwnNoTime
   /\ \E t \in {lastNom + OwnershipDelay - 1, lastNom + OwnershipDelay, lastNom + OwnershipDelay + 1, now + 1} :
        /\ t > now /\ now' = t
        /\ Emit([m |-> "time", t |-> t], TRUE, o)
-  /\ UNCHANGED <<o, lastNom>>
+  /\ UNCHANGED <<o, lastNom, intf>>
+
+\* Everything else the contract offers is NOT part of the handover machine: whatever the current admin (or anybody)
+\* does in between - halting and resuming the contract with corrected totals, replacing configuration sections,
+\* an upgrade - leaves admin, nominee and time lock exactly as they were. The harness maps the abstract
+\* operation to a concrete call of the contract under test (tree.rs); its own outcome is not judged here.
+Interfere(k) ==
+  /\ UNCHANGED <<o, now, lastNom>> /\ intf' = k
+  /\ Emit([m |-> "interfere", op |-> k, s |-> o.admin], TRUE, o)
 
 Next == /\ steps < MaxSteps /\ steps' = steps + 1
         /\ \/ \E s \in Who, x \in Who : Nominate(s, x)
            \/ \E s \in Who : Revoke(s)
            \/ \E s \in Who : Accept(s)
            \/ Tick
+           \/ \E k \in Interference : Interfere(k)
 Spec == Init /\ [][Next]_vars
 
 \* C12: the admin changes only by acceptance from the nominee no earlier than 7 days after the
